@@ -12,7 +12,13 @@ META = {
             "completes at most once and no done() runs twice; a successful result is the decoded body of a later "
             "frame carrying the call's own id and type; short, unknown-id, duplicate, mistyped and truncated frames "
             "touch no other call and never end the transport; an answered call completes with exactly the peer's "
-            "fields (ids are compared in full: replies at every power-of-two and every small distance from an "
+            "fields; a caller's context may end at any point of its call's life (before the exchange is queued, in the "
+            "queue, taken, sent, pending, answered): the transport does not change, every other call gets what it "
+            "got before, the caller gets the context's error, and the whole development applies to histories with "
+            "such give-ups erased -- what the source does on ctx.Done() is read off transport.call / asyncCall "
+            "(nothing but return; only the reader makes a pendingFetch; only serve writes an exchange's id), and an "
+            "abandon that names its call by the id field before serve has assigned it is kept as a refuted "
+            "counter-model (ids are compared in full: replies at every power-of-two and every small distance from an "
             "outstanding id, and calls answered after up to 1023 younger ones, are part of the histories). The model is tied to /repo on every run by statement skeletons regenerated from transport.go "
             "(ownership of the pending table, order of the type check, fetch-removes, error assignment before "
             "done) and by scripted adversarial-peer histories run against the real transport and replayed inside "
@@ -163,6 +169,10 @@ def impl_oracle(c):
                 out.append(("foreign-reply",
                             "call %d (id %s) returned a result that the peer never sent for that id and type"
                             % (k, x.get("id"))))
+        if x.get("cancelled") and x["res"] != "ctx":
+            out.append(("gave-up-not-ctx",
+                        "the context of call %d ended (%s) before the call had completed, but the call returned %s "
+                        "instead of the context's error" % (k, x.get("when", "?"), x["res"])))
         if x.get("sent") and not x.get("cancelled"):
             # the first frame addressed to this call's id after its request
             first = None
@@ -305,7 +315,12 @@ def run(ck):
              "2^1..2^63, 1..1100 or a random multiple beyond the highest outstanding id; one call left unanswered "
              "while 127 / 255 / 1023 younger ones are issued and answered, then the old and the newest answered in "
              "that order) then seeded histories over streams "
-             "{perm, bad, mixed, sendfail, errbyte, shutdown, hint, peerclose, cancel, alias, held}: 1-32 concurrent callers of 7 "
+             "{perm, bad, mixed, sendfail, errbyte, shutdown, hint, peerclose, cancel, alias, held, ctx}; ctx = older calls "
+             "(mostly including the first call of the transport) left outstanding while contexts of younger calls end at "
+             "every stage: calls issued with a finished context (about half still get queued and are sent), contexts "
+             "ending in the queue (serve held at its schedule point after taking a call), between the request's write "
+             "and the recording of the call (serve held after the send), while pending at the peer, after the answer; "
+             "the peer may answer calls whose caller has gone; 1-32 concurrent callers of 7 "
              "call kinds, replies in random order and bursts, duplicates, unknown ids, wrong type, truncated and "
              "over-long bodies, short packets, text messages; a history is non-trivial if it has >1 caller or >1 "
              "frame; distinct = distinct (script, per-caller results)",
